@@ -4,15 +4,19 @@
    every number of classes C, every constructor argument and every draw sequence that
    satisfies the generator's contract (rng.shuffle / rng.permutation return a
    permutation).  `Some out` = the constructor returned and selected the samples `out`
-   in this order, `None` = it raised.
+   in this order, `None` = it raised.  A label -1 marks an unlabeled sample (utils/class_counts.py):
+   labels_in_u classes C = every label is -1 or in [0, C); labels_in classes C = every label in [0, C).
 
    Percent bounds: the percent wrappers are stated over abstract percent operations O
    (0., 1., the range assertion, <=, and the percent -> index map p_cut) with the contract
    pct_contract O n (0. and 1. admissible and extremal; cut 0. = 0, cut 1. = n,
    0 <= cut p <= n).  Fractions with floor/ceil (rat_ops) meet the contract for every n; the
-   executable model instantiates O with binary64 (Model.float_ops: product, then int()/np.ceil)
-   and the harness checks the contract clauses for that instance on every generated case. *)
-From Coq Require Import ZArith List Bool Permutation Sorted.
+   executable model instantiates O with binary64 (ModelFloat.float_ops: product, then int()/np.ceil;
+   ClasswiseSubsetWrapper: binary32, ModelFloat.float32_ops, because torch evaluates percent * 0-dim
+   integer tensor in its default dtype) and the harness checks the contract clauses for these instances
+   on every generated case.  For exact fractions the cut is also monotone (rat_cut_monotone), which
+   removes the hypothesis `cut p <= cut q` from the partition theorems. *)
+From Coq Require Import ZArith List Bool Permutation Sorted Lia.
 Import ListNotations.
 From KD Require Import C03.Model C03.Spec C03.Proofs.
 Open Scope Z_scope.
@@ -107,6 +111,47 @@ Theorem pct_contract_satisfiable : forall n, 0 <= n -> pct_contract rat_ops n.
 Proof. exact rat_ops_contract. Qed.
 Print Assumptions pct_contract_satisfiable.
 
+(* exact fractions: the cut is monotone in the percent (p <= q -> cut p <= cut q, for floor and for
+   ceil) and floor <= ceil, for every n >= 0 *)
+Theorem rat_cut_monotone : forall n, 0 <= n -> pct_mono rat_ops n.
+Proof. exact rat_ops_mono. Qed.
+Print Assumptions rat_cut_monotone.
+
+(* so for a monotone cut `assert start_percent <= end_percent` is all a partition needs *)
+Theorem complementary_ranges_partition_subset_percent_monotone : forall P (O : pct_ops P) n p q,
+    pct_contract O n -> pct_mono O n -> p_ok O p = true -> p_ok O q = true -> p_leb O p q = true ->
+    exists A B D,
+      subset_percent_g O n None (Some p) = Some A /\
+      subset_percent_g O n (Some p) (Some q) = Some B /\
+      subset_percent_g O n (Some q) None = Some D /\
+      A ++ B ++ D = zrange 0 n.
+Proof. exact (@subset_percent_partition_mono). Qed.
+Print Assumptions complementary_ranges_partition_subset_percent_monotone.
+
+(* PercentFilterWrapper: also with mixed rounding, as long as a ceil'ed lower cut is not paired with a
+   floored upper cut *)
+Theorem complementary_ranges_partition_percent_filter_monotone : forall P (O : pct_ops P) n p q c1 c2,
+    pct_contract O n -> pct_mono O n -> p_ok O p = true -> p_ok O q = true -> p_leb O p q = true ->
+    implb c1 c2 = true ->
+    exists A B D,
+      percent_filter_g O n None (Some p) false c1 = Some A /\
+      percent_filter_g O n (Some p) (Some q) c1 c2 = Some B /\
+      percent_filter_g O n (Some q) None c2 false = Some D /\
+      A ++ B ++ D = zrange 0 n.
+Proof. exact (@percent_filter_partition_mono). Qed.
+Print Assumptions complementary_ranges_partition_percent_filter_monotone.
+
+(* unconditional for exact fractions *)
+Theorem complementary_ranges_partition_exact_fractions : forall n p q,
+    0 <= n -> p_ok rat_ops p = true -> p_ok rat_ops q = true -> p_leb rat_ops p q = true ->
+    exists A B D,
+      subset_percent_g rat_ops n None (Some p) = Some A /\
+      subset_percent_g rat_ops n (Some p) (Some q) = Some B /\
+      subset_percent_g rat_ops n (Some q) None = Some D /\
+      A ++ B ++ D = zrange 0 n.
+Proof. exact subset_percent_partition_rat. Qed.
+Print Assumptions complementary_ranges_partition_exact_fractions.
+
 Example partition_at_zero : exists A D,
     subset_range 5 None (Some 0) = Some A /\ subset_range 5 (Some 0) None = Some D /\ A = [] /\ D = [0; 1; 2; 3; 4].
 Proof. do 2 eexists. repeat split. Qed.
@@ -126,37 +171,48 @@ Print Assumptions shuffle_perm.
 
 (* ---------------- SortByClassWrapper ---------------- *)
 (* `before classes i j`: i has the smaller class, or the same class and the smaller id *)
+(* unlabeled samples (-1) included: they come first, in original order *)
 Theorem sort_by_class_perm_sorted_stable : forall classes C,
-    labels_in classes C ->
+    labels_in_u classes C ->
     Permutation (sort_by_class classes C) (all_ids classes) /\
     StronglySorted (before classes) (sort_by_class classes C).
-Proof. exact sort_by_class_l. Qed.
+Proof. exact sort_by_class_u_l. Qed.
 Print Assumptions sort_by_class_perm_sorted_stable.
+
+(* a fully labelled dataset: class block after class block *)
+Theorem sort_by_class_labelled_is_class_blocks : forall classes C,
+    labels_in classes C -> sort_by_class classes C = concat (map (fun c => positions c classes) (zrange 0 C)).
+Proof. exact sort_by_class_labelled. Qed.
+Print Assumptions sort_by_class_labelled_is_class_blocks.
 
 (* ... and that determines the selection: it is THE stable sort by class *)
 Theorem sort_by_class_is_the_stable_sort : forall classes C out,
-    labels_in classes C -> Permutation out (all_ids classes) -> StronglySorted (before classes) out ->
+    labels_in_u classes C -> Permutation out (all_ids classes) -> StronglySorted (before classes) out ->
     out = sort_by_class classes C.
 Proof. exact stable_sort_unique. Qed.
 Print Assumptions sort_by_class_is_the_stable_sort.
 
 Example sort_example : labels_in [2; 0; 1; 0; 2] 3 /\ sort_by_class [2; 0; 1; 0; 2] 3 = [1; 3; 2; 0; 4].
 Proof. split. now apply labels_in_b. reflexivity. Qed.
+Example sort_unlabeled_example :
+    labels_in_u [1; -1; 0; 1; -1; 0] 2 /\ sort_by_class [1; -1; 0; 1; -1; 0] 2 = [1; 4; 2; 5; 0; 3].
+Proof. split. now apply labels_in_u_b. reflexivity. Qed.
 
 (* ---------------- IntraClassShuffleWrapper ---------------- *)
+(* unlabeled samples (-1) included: they are shuffled among themselves *)
 Theorem intra_class_keeps_class_sequence : forall classes C draws,
-    labels_in classes C -> intra_draws_ok classes C draws ->
+    labels_in_u classes C -> intra_draws_ok classes C draws ->
     exists out, intra_class_shuffle classes C draws = Some out /\
                 Permutation out (all_ids classes) /\ map (cls classes) out = classes.
 Proof. exact intra_class_l. Qed.
 Print Assumptions intra_class_keeps_class_sequence.
 
 Example intra_example :
-    labels_in [1; 0; 1; 0] 2 /\ intra_draws_ok [1; 0; 1; 0] 2 [[3; 1]; [0; 2]] /\
-    intra_class_shuffle [1; 0; 1; 0] 2 [[3; 1]; [0; 2]] = Some [0; 3; 2; 1].
+    labels_in_u [1; 0; -1; 1; 0; -1] 2 /\ intra_draws_ok [1; 0; -1; 1; 0; -1] 2 [[4; 1]; [0; 3]; [5; 2]] /\
+    intra_class_shuffle [1; 0; -1; 1; 0; -1] 2 [[4; 1]; [0; 3]; [5; 2]] = Some [0; 4; 5; 3; 1; 2].
 Proof.
-  split. now apply labels_in_b. split; [|reflexivity].
-  constructor. apply perm_swap. constructor. apply Permutation_refl. constructor.
+  split. now apply labels_in_u_b. split; [|reflexivity].
+  constructor. apply perm_swap. constructor. apply Permutation_refl. constructor. apply perm_swap. constructor.
 Qed.
 
 (* ---------------- RepeatWrapper ---------------- *)
@@ -183,11 +239,24 @@ Proof. exact copies_nth_l. Qed.
 Print Assumptions repeat_round_robin.
 
 (* ---------------- OversamplingWrapper ---------------- *)
+(* every sample is kept, labelled or not *)
 Theorem oversampling_keeps_all : forall ex classes C out i,
-    oversample ex classes C = Some out -> labels_in classes (n_classes_eff C) ->
+    oversample ex classes C = Some out -> labels_in_u classes (n_classes_eff C) ->
     0 <= i < zlen classes -> 1 <= occ i out.
 Proof. exact oversample_keeps_all_l. Qed.
 Print Assumptions oversampling_keeps_all.
+
+(* an unlabeled sample belongs to no class: selected exactly once in both modes *)
+Theorem oversampling_keeps_unlabeled_once : forall ex classes C out i,
+    oversample ex classes C = Some out -> 0 <= i < zlen classes -> cls classes i = -1 -> occ i out = 1.
+Proof. exact oversample_unlabeled_once. Qed.
+Print Assumptions oversampling_keeps_unlabeled_once.
+
+(* the constructor raises exactly when get_class_counts rejects a label (neither -1 nor a class) *)
+Theorem oversampling_raises_iff_invalid_label : forall ex classes C,
+    0 <= C -> (oversample ex classes C = None <-> ~ labels_in_u classes (n_classes_eff C)).
+Proof. exact oversample_none_iff. Qed.
+Print Assumptions oversampling_raises_iff_invalid_label.
 
 Theorem oversampling_multiply_starts_with_dataset : forall classes C out,
     oversample false classes C = Some out -> exists extra, out = all_ids classes ++ extra.
@@ -220,18 +289,17 @@ Theorem exact_reaches_max : forall classes C out,
 Proof. exact exact_reaches_max_l. Qed.
 Print Assumptions exact_reaches_max.
 
-(* the per-class loop (fuel max+1) always finishes — also when classes are absent; the
-   constructor raises only if the labels are invalid or no sample is labelled *)
+(* the per-class loop (fuel max+1) always finishes — also when classes are absent, when samples are
+   unlabeled, when no sample is labelled at all; the constructor raises only if a label is invalid *)
 Theorem exact_terminates : forall classes C counts,
-    class_counts classes C = Some counts ->
-    (oversample true classes C = None <-> mxc classes (n_classes_eff C) = 0).
+    class_counts classes C = Some counts -> exists out, oversample true classes C = Some out.
 Proof. exact exact_terminates_l. Qed.
 Print Assumptions exact_terminates.
 
-Theorem exact_succeeds_on_labelled_data : forall classes C,
-    classes <> [] -> labels_in classes (n_classes_eff C) -> exists out, oversample true classes C = Some out.
+Theorem exact_succeeds_on_valid_labels : forall classes C,
+    labels_in_u classes (n_classes_eff C) -> exists out, oversample true classes C = Some out.
 Proof. exact exact_succeeds_l. Qed.
-Print Assumptions exact_succeeds_on_labelled_data.
+Print Assumptions exact_succeeds_on_valid_labels.
 
 (* why the repair was needed: the loop of a class without samples makes no progress for any fuel *)
 Theorem exact_loop_of_absent_class_diverges : forall fuel remaining,
@@ -244,6 +312,15 @@ Example oversample_absent_class_example :
     oversample true [0; 0; 2; 2; 2] 3 = Some [0; 1; 0; 2; 3; 4] /\
     oversample false [0; 2; 2; 2; 2] 3 = Some [0; 1; 2; 3; 4; 0; 0; 0].
 Proof. split. now apply labels_in_b. split; reflexivity. Qed.
+Example oversample_unlabeled_example :
+    labels_in_u [1; -1; 0; 1; -1; 1] 2 /\
+    oversample true [1; -1; 0; 1; -1; 1] 2 = Some [2; 2; 2; 0; 3; 5; 1; 4] /\
+    oversample false [1; -1; 0; 1; -1; 1] 2 = Some [0; 1; 2; 3; 4; 5; 2; 2] /\
+    ~ labels_in_u [0; 2] 2 /\ oversample true [0; 2] 2 = None.
+Proof.
+  split. now apply labels_in_u_b. split. reflexivity. split. reflexivity. split; [|reflexivity].
+  intros H. inversion H as [|? ? ? H2]. inversion H2. lia.
+Qed.
 
 (* ---------------- FewshotWrapper ---------------- *)
 (* min(shots, count_c) distinct samples of every class 0..max(label), grouped by class *)
@@ -272,7 +349,7 @@ Qed.
 (* class after class, the samples with rank [s, e) inside their class; with
    check_enough_samples the constructor raises iff some class has fewer than e samples *)
 Theorem classwise_counts : forall classes C s e check,
-    labels_in classes (n_classes_eff C) -> is_some s || is_some e = true ->
+    labels_in_u classes (n_classes_eff C) -> is_some s || is_some e = true ->
     let n := zlen classes in
     let e' := Z.min (odflt e n) n in
     let s' := odflt s 0 in
@@ -289,7 +366,7 @@ Proof. exact classwise_counts_l. Qed.
 Print Assumptions classwise_counts.
 
 Theorem classwise_percent_counts : forall P (O : pct_ops P) classes C s e,
-    labels_in classes (n_classes_eff C) -> is_some s || is_some e = true ->
+    labels_in_u classes (n_classes_eff C) -> is_some s || is_some e = true ->
     p_ok O (odflt s (p_zero O)) = true -> p_ok O (odflt e (p_one O)) = true ->
     p_leb O (odflt s (p_zero O)) (odflt e (p_one O)) = true ->
     classwise_percent_g O classes C s e =
@@ -347,21 +424,32 @@ Print Assumptions spec_list_eqb_sound.
 (* the model's selections satisfy exactly the predicates the correspondence check evaluates on
    the real selections (Check.spec_holds) *)
 Theorem sort_by_class_meets_spec : forall classes C,
-    labels_in classes C ->
+    labels_in_u classes C ->
     is_permutation classes (sort_by_class classes C) && sorted_stable classes (sort_by_class classes C) = true.
 Proof. exact sort_spec_bool. Qed.
 Print Assumptions sort_by_class_meets_spec.
 
 Theorem intra_class_meets_spec : forall classes C draws out,
-    labels_in classes C -> intra_draws_ok classes C draws -> intra_class_shuffle classes C draws = Some out ->
+    labels_in_u classes C -> intra_draws_ok classes C draws -> intra_class_shuffle classes C draws = Some out ->
     is_permutation classes out && list_eqb (map (cls classes) out) classes = true.
 Proof. exact intra_spec_bool. Qed.
 Print Assumptions intra_class_meets_spec.
 
 Theorem oversampling_meets_spec_keeps_all : forall ex classes C out,
-    oversample ex classes C = Some out -> labels_in classes (n_classes_eff C) -> keeps_all classes out = true.
+    oversample ex classes C = Some out -> labels_in_u classes (n_classes_eff C) -> keeps_all classes out = true.
 Proof. exact keeps_all_bool. Qed.
 Print Assumptions oversampling_meets_spec_keeps_all.
+
+Theorem oversampling_meets_spec_unlabeled_once : forall ex classes C out,
+    oversample ex classes C = Some out -> unlabeled_once classes out = true.
+Proof. exact unlabeled_once_bool. Qed.
+Print Assumptions oversampling_meets_spec_unlabeled_once.
+
+Theorem fewshot_meets_spec : forall classes shots draws out,
+    classes <> [] -> 0 <= shots -> fewshot_draws_ok classes draws -> fewshot classes shots draws = Some out ->
+    fewshot_ok classes shots out = true.
+Proof. exact fewshot_spec_bool. Qed.
+Print Assumptions fewshot_meets_spec.
 
 Theorem oversampling_meets_spec_multiply : forall classes C out,
     oversample false classes C = Some out -> balanced_multiply classes (n_classes_eff C) out = true.
